@@ -39,32 +39,9 @@ example : RefLocal W.ctx "Query" W.selA (.obj [("a", .obj [("x", .num)])]) :=
     GraphQL type `ty` admits exactly: `null` iff the position is nullable, lists of admitted elements at list
     positions, and the values of `q n` at the named position. -/
 theorem leafTs_exact {e : Env} (q : Name → Ty) (hq : ∀ n ts, q n ≠ .union ts) (ty : GType) :
-    (∀ v, Mem e v (leafTsWith q ty) ↔ WrapConf (fun n v => Mem e v (q n)) ty v) ∧
-    (∀ v, Mem e v (leafCoreWith q ty) ↔ WrapConfNN (fun n v => Mem e v (q n)) ty v) := by
-  induction ty with
-  | named n p =>
-    constructor
-    · intro v; simp only [leafTsWith, WrapConf]; exact mem_orNull_iff (hq n)
-    · intro v; simp only [leafCoreWith, WrapConfNN]
-  | list t p ih =>
-    have harr : ∀ v, Mem e v (.arr (leafTsWith q t)) ↔
-        ∃ xs, v = .arr xs ∧ ∀ x ∈ xs, WrapConf (fun n v => Mem e v (q n)) t x := by
-      intro v
-      rw [mem_arr_iff]
-      constructor
-      · rintro ⟨xs, rfl, hx⟩; exact ⟨xs, rfl, fun x hxm => (ih.1 x).1 (hx x hxm)⟩
-      · rintro ⟨xs, rfl, hx⟩; exact ⟨xs, rfl, fun x hxm => (ih.1 x).2 (hx x hxm)⟩
-    constructor
-    · intro v
-      simp only [leafTsWith, WrapConf]
-      rw [mem_orNull_iff (by intro ts h; cases h), harr v]
-    · intro v
-      simp only [leafCoreWith, WrapConfNN]
-      exact harr v
-  | nonNull t ih =>
-    constructor
-    · intro v; simp only [leafTsWith, WrapConf]; exact ih.2 v
-    · intro v; simp only [leafCoreWith, WrapConfNN]; exact ih.2 v
+    (∀ v, Mem e v (leafTs q ty) ↔ WrapConf (fun n v => Mem e v (q n)) ty v) ∧
+    (∀ v, Mem e v (leafCore q ty) ↔ WrapConfNN (fun n v => Mem e v (q n)) ty v) :=
+  leafTs_den q hq ty
 
 /-- non-vacuity of `hq`: the mapper of the printer (`Schema.__OperationOutput.<n>`, closed or not) is never a union -/
 example : ∀ n ts, (fun n => Ty.qref ["Schema", "__OperationOutput", n]) n ≠ .union ts := by
@@ -78,14 +55,14 @@ theorem C02_leaf_exact {obj : TypeDef} {key name : Name} {rec : GType → List S
     {f : SField} (hn : (name == "__typename") = false) (h : fieldTree obj key name false none rec = .ok f)
     (ns : String) (parent : Name) :
     ∃ ty, directField? obj name = some ty ∧ f = .leaf key ty false ∧
-      fieldTs ns parent f = (key, false, false, leafTsWith (fun n => .qref [ns, "__OperationOutput", n]) ty) := by
+      fieldTs (Refs.ofNs ns) parent f = (key, false, false, leafTs (Refs.ofNs ns).out ty) := by
   unfold fieldTree at h
   simp only [Bool.false_eq_true, ↓reduceIte, hn] at h
   split at h
   · cases h
   · rename_i ty hty
     cases h
-    exact ⟨ty, hty, rfl, by simp [fieldTs, (leafTs_eq_with ns ty).1]⟩
+    exact ⟨ty, hty, rfl, by simp [fieldTs]⟩
 
 /-- the hypotheses are satisfiable: `x` on the witness type `A` -/
 example : ∃ f, fieldTree (W.S.typeDef? "A").get! "x" "x" false none (fun _ _ => .error .outOfFuel) = .ok f :=
@@ -97,7 +74,7 @@ example : ∃ f, fieldTree (W.S.typeDef? "A").get! "x" "x" false none (fun _ _ =
 theorem C02_typename_literal {e : Env} (obj : TypeDef) (key : Name) (sub : Option (List Selection))
     (rec : GType → List Selection → Except Panic SelTree) (ns : String) (parent : Name) :
     fieldTree obj key "__typename" false sub rec = .ok (.leaf key (.named "String" { builtin := true }) true) ∧
-    fieldTs ns parent (.leaf key (.named "String" { builtin := true }) true) = (key, false, false, .strLit parent) ∧
+    fieldTs (Refs.ofNs ns) parent (.leaf key (.named "String" { builtin := true }) true) = (key, false, false, .strLit parent) ∧
     (∀ v, Mem e v (.strLit parent) ↔ v = .str parent) := by
   refine ⟨by simp [fieldTree], by simp [fieldTs], fun v => mem_strLit_iff⟩
 
@@ -137,7 +114,7 @@ theorem aliased_typename_counterexample :
       = .union [.qref ["Schema", "__OperationOutput", "String"], .prim "null"] ∧
     Mem W.env .null (W.close (.union [.qref ["Schema", "__OperationOutput", "String"], .prim "null"])) ∧
     ¬ RefLocal W.ctx "Query" W.selT (.obj [("t", .null)]) ∧
-    (fieldTs "Schema" "Query" (.leaf "t" (.named "String" { builtin := true }) true)).2.2.2 = .strLit "Query" ∧
+    (fieldTs (Refs.ofNs "Schema") "Query" (.leaf "t" (.named "String" { builtin := true }) true)).2.2.2 = .strLit "Query" ∧
     ¬ Mem W.env .null (.strLit "Query") := by
   refine ⟨rfl, ?_, typename_null_not_refLocal, rfl, ?_⟩
   · apply memG_sound 4; decide +kernel
